@@ -33,20 +33,33 @@ package rsyncwire
 //@ ghost frameLen: int
 //@ lemma header-roundtrip: forall t: int, n: int :: 0 <= t && t <= 2 && 0 <= n && n < 16777216 ==> wrap8u(div((7 + t) * 16777216 + n, 16777216) - 7) == t && mod((7 + t) * 16777216 + n, 16777216) == n
 
-// WriteMsg emits one frame: it must be given a tag below 3 and at most
+// writeFrame emits one frame: it must be given a tag below 3 and at most
 // maxMessageSize payload bytes, otherwise the header is malformed (the length
 // spills into the tag bits from 2^24 on) or exceeds the limit readers accept.
-//@ func (*rsyncwire.MultiplexWriter).WriteMsg
+//@ func (*rsyncwire.MultiplexWriter).writeFrame
 //@   requires[C17] [frame-limit] tag <= 2 && len(p) <= 262144
 //@   modifies rsyncwire.CountingWriter.BytesWritten, ghost.acc
 //@   at[C17] encoding/binary.Write: assert [header-encoding] data(arg2) == (7 + tag) * 16777216 + len(p)
 //@   at[C17] (io.Writer).Write: assert [payload-unchanged] base(arg0) == base(p) && off(arg0) == off(p) && len(arg0) == len(p)
 //@   ensures[C17] [header-then-payload] err == nil && !isMW2(data(w.Writer)) ==> select(ghost.acc, data(w.Writer)) == accApp(accApp(old(select(ghost.acc, data(w.Writer))), valEnc(typeid("uint32"), (7 + tag) * 16777216 + len(p))), bid(p))
+//@   ensures[C17] [all-or-error] err == nil ==> n == len(p)
+//@   ensures[C17] [count] 0 <= n && n <= len(p)
+
+// WriteMsg accepts a payload of any length and cuts it into frames: every
+// frame carries the next unsent part of p, at most maxMessageSize bytes of
+// it, and on success all of p has been sent.
+//@ func (*rsyncwire.MultiplexWriter).WriteMsg
+//@   requires[C17] [tag] tag <= 2
+//@   modifies rsyncwire.CountingWriter.BytesWritten, ghost.acc
+//@   loop 0: invariant [sent-prefix] base(rest) == base(p) && off(rest) == off(p) + n && n + len(rest) == len(p) && 0 <= n
+//@   at[C17] (*rsyncwire.MultiplexWriter).writeFrame: assert [next-unsent-part] base(arg2) == base(p) && off(arg2) == off(p) + n && len(arg2) <= 262144 && n + len(arg2) <= len(p) && arg1 == tag
+//@   ensures[C17] [all-or-error] err == nil ==> n == len(p)
 
 // Write is the io.Writer face of the multiplexer: callers (binary.Write,
 // io.WriteString, the sender's chunk writes) hand it payloads of any length.
 //@ func (*rsyncwire.MultiplexWriter).Write
 //@   modifies rsyncwire.CountingWriter.BytesWritten, ghost.acc
+//@   ensures[C17] [all-or-error] err == nil ==> n == len(p)
 
 //@ func (*rsyncwire.MultiplexReader).ReadMsg
 //@   modifies rsyncwire.CountingReader.BytesRead, ghost.frameTag, ghost.frameLen
